@@ -160,13 +160,13 @@ class Ctx:
 
     def __init__(self, keytype, base=None):
         self.keytype = keytype
-        self.names = []          # (spelling, inherited?)
+        self.names = []          # (spelling, inherited?, declaring key type)
         self.attrs = []          # (attribute, inherited?)
         self.has_wild = False
         self.wild_default_keys = []
         self.n = 0
         if base is not None:
-            self.names = [(n, True) for n, _ in base.names]
+            self.names = [(n, True, kt) for n, _, kt in base.names]
             self.attrs = [(a, True) for a, _ in base.attrs]
             self.has_wild = base.has_wild
             self.n = base.n + 50
@@ -228,7 +228,7 @@ class Gen:
                 if rnd.random() < 0.15:
                     kids.insert(0, Node("description", text="about"))
                 node.kids.append(Node(kind, attrs, kids))
-                ctx.names.append((name, False))
+                ctx.names.append((name, False, ctx.keytype))
                 ctx.attrs.append((attrs.get("attribute")
                                   or implicit_attr(name), False))
             elif kind in ("wkey", "wmultikey"):
@@ -252,7 +252,7 @@ class Gen:
                     attrs["required"] = "yes"
                 tag = "key" if kind == "wkey" else "multikey"
                 node.kids.append(Node(tag, attrs, kids))
-                ctx.names.append(("+", False))
+                ctx.names.append(("+", False, ctx.keytype))
                 ctx.attrs.append((attrs["attribute"], False))
             else:
                 cands = self.slots(maxdepth)
@@ -270,7 +270,7 @@ class Gen:
                     attrs["name"] = name
                     if needs or rnd.random() < 0.3:
                         attrs["attribute"] = self.attr_name()
-                    ctx.names.append((name, False))
+                    ctx.names.append((name, False, ctx.keytype))
                     ctx.attrs.append((attrs.get("attribute")
                                       or implicit_attr(name), False))
                 else:
@@ -446,8 +446,15 @@ def enumerate_edits(root, gen, dtd):
         ctx = c.meta["ctx"]
         conc, absts = types_before(c)
         # 2. unique key names / attribute names, inherited ones included
-        for name, inherited in ctx.names:
+        for name, inherited, declared in ctx.names:
             inh = "inherited" if inherited else "own"
+            if inherited and name != name.lower() and (
+                    (declared == "identifier")
+                    != (ctx.keytype == "identifier")):
+                # the derived type overrides the key type with one of the
+                # other folding behaviour: the inherited name has a
+                # different normal form when written out in the derived type
+                inh = "inherited-keytype-override"
             if name == "+":
                 for tag in ("key", "multikey"):
                     B("unique-names", "second-wildcard-" + inh,
@@ -456,12 +463,14 @@ def enumerate_edits(root, gen, dtd):
                                    "attribute": fresh("zz")}))])
                 continue
             for spelling in {name, clash_variant(ctx.keytype, name)}:
-                B("unique-names", "key-name-" + inh,
+                B("unique-names", "name-" + inh if inh.endswith("override")
+                  else "key-name-" + inh,
                   [("add", c.id, "end",
                     Node("key", {"name": spelling,
                                  "attribute": fresh("zz")}))])
                 if conc:
-                    B("unique-names", "section-name-" + inh,
+                    B("unique-names", "name-" + inh
+                      if inh.endswith("override") else "section-name-" + inh,
                       [("add", c.id, "end",
                         Node("section", {"type": conc[0]["name"],
                                          "name": spelling,
@@ -556,13 +565,11 @@ def enumerate_edits(root, gen, dtd):
                 B("required-default", "key-default-attribute",
                   [("set", n.id, "default", "x")])
             if defaults and n.attrs.get("required") != "yes":
-                sub = ("wildcard-" if wild else "") + n.tag \
-                    + "-default-elements"
+                sub = n.tag + "-default-elements"
                 B("required-default", sub, [("set", n.id, "required", "yes")])
             if is_key and n.attrs.get("required") == "yes" and (
                     wild or n.tag == "multikey"):
-                sub = ("wildcard-" if wild else "") + n.tag \
-                    + "-default-elements"
+                sub = n.tag + "-default-elements"
                 attrs = {"key": "dk1"} if wild else {}
                 B("required-default", sub,
                   [("add", n.id, "end", Node("default", attrs, text="x"))])
@@ -864,7 +871,7 @@ def work(item):
 def run(tier, seed):
     use_repo()
     col = Collector()
-    ndocs = 1500 if tier == "thorough" else 160
+    ndocs = 1500 if tier == "thorough" else 110
     npairs = 120 if tier == "thorough" else 40
     tmp = tempfile.mkdtemp(prefix="c10_")
     try:
